@@ -68,6 +68,15 @@ class Discretizer(BaseDiscretizer):
         self.ordinal_features = list(set(ordinal_features))
         self.features = list(set(quantitative_features + qualitative_features + ordinal_features))
 
+        # checking that features are passed as one type only
+        assert all(
+            quali_feature not in quantitative_features
+            for quali_feature in qualitative_features + ordinal_features
+        ), (
+            " - [Discretizer] One of provided features is both in quantitative_features and in "
+            "qualitative_features or ordinal_features. Please, be careful with your inputs!"
+        )
+
         # initializing input_dtypes
         self.input_dtypes = {feature: "str" for feature in qualitative_features + ordinal_features}
         self.input_dtypes.update({feature: "float" for feature in quantitative_features})
